@@ -26,6 +26,8 @@ class StepLoop(asyncio.SelectorEventLoop):
         self.pick = lambda p, kind: None      # -> callable to run in the helper thread, or None
         self.on_point = None                  # optional observer (p, kind)
         self.after_inject = None              # called on the loop thread once the injection has landed
+        self.hold_time = lambda: False        # while True the virtual clock is frozen (engine paused: the main thread
+        #                                       is taking its decision and must not race with timers on the loop)
         self._held = None
         self._inflight = False
         self._helper_done = threading.Event()
@@ -66,10 +68,11 @@ class StepLoop(asyncio.SelectorEventLoop):
             if self._held is not None:
                 self._ready.appendleft(self._held)
                 self._held = None
-        block = not self._ready and not self._stopping and (self._inflight or not self._scheduled)
+        frozen = self.hold_time()
+        block = not self._ready and not self._stopping and (self._inflight or not self._scheduled or frozen)
         ev = self._selector.select(None if block else 0)
         self._process_events(ev)
-        if not self._ready and self._scheduled and not self._inflight:
+        if not self._ready and self._scheduled and not self._inflight and not frozen:
             # idle: scheduling point before advancing time
             if self.active():
                 p = self.point
@@ -81,7 +84,7 @@ class StepLoop(asyncio.SelectorEventLoop):
                     self._start_injection(fn, p, "idle")
                     return
             self._vt = max(self._vt, self._scheduled[0]._when)
-        while self._scheduled and self._scheduled[0]._when <= self._vt and not self._inflight:
+        while self._scheduled and self._scheduled[0]._when <= self._vt and not self._inflight and not frozen:
             h = heapq.heappop(self._scheduled)
             h._scheduled = False
             if not h._cancelled:
